@@ -4,7 +4,10 @@
 (*                                   req; obs = dense matrix / vector / size         *)
 (*   bay    bd, req, obs | raised    a StiffPanelBay was built from bd and asked for  *)
 (*                                   size, k0, kG0, kM (stiffener-less: exact, against *)
-(*                                   the tiles' sum = the uncut skin) or fext          *)
+(*                                   the tiles' sum = the uncut skin), fext, b1dmass    *)
+(*                                   (flange mass of a 1-D stiffener) or stiff: the     *)
+(*                                   stand-alone k0 / kG0 / kM of 2-D stiffener req.k    *)
+(*                                   against the matrix DERIVED in Assembly.tla          *)
 (*   place  bd, q, size, comps, obs  stiffened bay: comps = the code's stand-alone     *)
 (*                                   component matrices (tiles, then stiffeners in     *)
 (*                                   order of insertion), obs = the assembled matrix;  *)
@@ -32,9 +35,10 @@ DecAd(j) == [kind |-> "asm", pds |-> Fn([k \in 1..Len(j.pds) |-> DecPd(j.pds[k])
              conns |-> Fn([k \in 1..Len(j.conns) |->
                  [kind |-> j.conns[k].kind, p1 |-> j.conns[k].p1, p2 |-> j.conns[k].p2,
                   pos1 |-> InRat(j.conns[k].pos1), pos2 |-> InRat(j.conns[k].pos2)]])]
-DecSd(s) == [kind |-> s.kind, ys |-> InRat(s.ys), base |-> s.base, flange |-> s.flange, bb |-> InRat(s.bb), bf |-> InRat(s.bf),
-             mb |-> s.mb, nb |-> s.nb, mf |-> s.mf, nf |-> s.nf,
-             flam |-> [stack |-> Fn([k \in 1..Len(s.flam.stack) |-> DecPly(s.flam.stack[k])])]]
+DecLam(x) == [stack |-> Fn([k \in 1..Len(x.stack) |-> DecPly(x.stack[k])])]
+DecSd(s) == LET core == [kind |-> s.kind, ys |-> InRat(s.ys), base |-> s.base, flange |-> s.flange, bb |-> InRat(s.bb), bf |-> InRat(s.bf),
+                         mb |-> s.mb, nb |-> s.nb, mf |-> s.mf, nf |-> s.nf, flam |-> DecLam(s.flam), blam |-> DecLam(s.blam)]
+            IN IF "mu" \in DOMAIN s THEN core @@ [mu |-> InRat(s.mu)] ELSE core
 DecBd(j) == [kind |-> "bay", skin |-> DecPd(j.skin), cuts |-> RatSeq(j.cuts),
              stiffs |-> Fn([k \in 1..Len(j.stiffs) |-> DecSd(j.stiffs[k])])]
 DecDef(j) == IF j.kind = "asm" THEN DecAd(j) ELSE DecBd(j)
@@ -44,6 +48,7 @@ DecReq(d, j) ==
       [] j.q = "kG0" -> [q |-> "kG0", N |-> IF d.kind = "asm" THEN Fn([k \in 1..Len(j.N) |-> RatSeq(j.N[k])]) ELSE RatSeq(j.N)]
       [] j.q \in {"fint", "kT"} -> [q |-> j.q, c |-> RatSeq(j.c)]
       [] j.q = "b1dmass" -> [q |-> "b1dmass", k |-> j.k]
+      [] j.q = "stiff" -> [q |-> "stiff", k |-> j.k, mat |-> j.mat, Nf |-> RatSeq(j.Nf), Nb |-> RatSeq(j.Nb)]
       [] j.q = "fint_part" -> [q |-> "fint_part", k |-> j.k, c |-> RatSeq(j.c)]
       [] j.q = "fext" ->
            IF d.kind = "asm"
@@ -68,7 +73,7 @@ Raised(e) == IF "raised" \in DOMAIN e THEN e.raised ELSE ""
    tiles' sum, which must coincide with the uncut skin's (partition independence, re-checked here) *)
 Expected(d, r, dev) == AQuantity(d, r, dev)
 SpecConsistent(d, r) == (d.kind = "bay" /\ r.q \in {"k0", "kG0", "kM"}) => Vals(SkinSum(d, r, {})) = Vals(SkinUncut(d, r, {}))
-ValueDeviations == { k \in OpenKF : k \in {"KF_C04_OffsetCouplingSign", "KF_C13_Blade1DMassCouplingDoubled"} }
+ValueDeviations == { k \in OpenKF : k \in {"KF_C04_OffsetCouplingSign", "KF_C13_Blade1DMassCouplingDoubled", "KF_C13_TStiffBaseStripInBayCoordinates"} }
 RECURSIVE FirstValueKF(_,_,_,_)
 FirstValueKF(kfs, obs, d, r) ==
     IF kfs = {} THEN "none"
